@@ -45,6 +45,17 @@ def universe(full):
           ([7], object(), "object"), ([7], {"a": 1}, "dict")]
     from basictdf.tdfTypes import CameraViewPort
     u.append(([6], CameraViewPort(np.array([0, 0]), np.array([4, 4])), "CameraViewPort"))
+    # "every other kind of object": sequences and containers that are neither list, tuple nor array, lengths 0..4
+    # (no statement is made about them as Event values: they are iterable)
+    import array
+    import collections
+    for n in range(5):
+        for desc, val in (("bytes", b"1234"[:n]), ("bytearray", bytearray(b"\x00\x01\x02\x03"[:n])), ("range", range(n)),
+                          ("deque", collections.deque([1] * n)), ("array.array('i')", array.array("i", [1] * n)),
+                          ("array.array('f')", array.array("f", [1.0] * n)), ("memoryview", memoryview(bytes(n))),
+                          ("set", set(range(n))), ("frozenset", frozenset(range(n))), ("dict", {i: i for i in range(n)}),
+                          ("dict keys", {i: i for i in range(n)}.keys())):
+            u.append(([7], val, "%s of length %d" % (desc, n), "not for events"))
     return u
 
 
@@ -120,7 +131,7 @@ def run(chk):
     full = chk.tier != "quick"
     uni = universe(True)
     chk.rule = ("complete enumeration of the property's universe: every array shape of rank 0-3 with extents 0..4 (156 shapes) x "
-                "dtypes {f4,f8,i4,i8,u1,bool,object}, lists and tuples of length 0..4, None, str, int, float, dict, object, "
+                "dtypes {f4,f8,i4,i8,u1,bool,object}, lists and tuples of length 0..4, None, str, int, float, dict, object, other sequences and containers of length 0..4 (bytes, bytearray, range, deque, array.array, memoryview, set, frozenset, dict, dict keys), "
                 "CameraViewPort — substituted for each validated argument of Data3D, ForceTorque3D, CalibrationDataBlock, "
                 "CameraViewPort, SeelabCameraData, OpticalChannelData (others valid); ForceTorqueTrack: all triples over a "
                 "12-shape subset + non-arrays; Event: every value x both kinds; observed: accepted / exception class, and "
@@ -129,7 +140,7 @@ def run(chk):
     cases = []           # (ctor id, name, argpos, margs, thunk, mval, desc)
     for cid, name, build, valid, argnames in constructors():
         for pos in range(len(valid)):
-            for m, p, desc in uni:
+            for m, p, desc in (x[:3] for x in uni):
                 margs = [v[0] for v in valid]
                 pargs = [v[1] for v in valid]
                 margs[pos], pargs[pos] = m, p
@@ -137,13 +148,14 @@ def run(chk):
     # coupled arrays
     from basictdf.tdfForce3D import ForceTorqueTrack
     sub = [(), (0,), (3,), (4,), (0, 3), (1, 3), (4, 3), (4, 2), (3, 4), (4, 4), (2, 3, 1), (4, 3, 1)]
-    vals = [([5, list(s)], arr(s, "<f4"), "array%r" % (s,)) for s in sub] + [([3, 3], [1, 2, 3], "list 3"), ([0], None, "None")]
+    vals = [([5, list(s)], arr(s, "<f4"), "array%r" % (s,)) for s in sub] + [([3, 3], [1, 2, 3], "list 3"), ([0], None, "None"),
+                                                                          ([7], bytes(36), "bytes of length 36")]
     for a, b, c in itertools.product(vals, repeat=3):
         cases.append((6, "ForceTorqueTrack", 0, [a[0], b[0], c[0]],
                       (lambda a=a, b=b, c=c: ForceTorqueTrack("t", a[1], b[1], c[1])), None, "ForceTorqueTrack(%s, %s, %s)" % (a[2], b[2], c[2])))
     # events
     from basictdf.tdfEvents import Event, EventsDataType
-    for m, p, desc in uni:
+    for m, p, desc in (x for x in uni if len(x) == 3):
         for single in (1, 0):
             ty = EventsDataType.singleEvent if single else EventsDataType.eventSequence
             cases.append((7, "Event", 0, [m], (lambda p=p, ty=ty: Event("e", p, ty)), m, "Event(values=%s, %s)" % (desc, ty.name), single))
